@@ -242,6 +242,25 @@ def targeted(fx):
                 else:
                     s2[i].append('')
                 out.append(('%s/%s-body-segment/%s' % (key, name, how), join_doc(s2, delims)))
+    # element errors on the envelope TRAILERS whose offending value spells a segment identifier (the header's, or another one):
+    # the report must show each of them next to its trailer, and the header's own element errors next to the header
+    for key in ('simple_837p', '834_lui_id_5010', '835id'):
+        if key not in d:
+            continue
+        delims, segs = split_doc(d[key])
+        for hdr, hi, trl, ti, vals in (('ST', 2, 'SE', 2, ('1ST0000001', '12GS567890')), ('GS', 6, 'GE', 2, ('1GS', 'ISA2')), ('ISA', 13, 'IEA', 2, ('0000ISA01', '00000GS01'))):
+            for v in vals:
+                for both in (False, True):
+                    s2 = [list(x) for x in segs]
+                    ok = False
+                    for x in s2:
+                        if x[0] == trl and len(x) > ti:
+                            x[ti] = v
+                            ok = True
+                        if both and x[0] == hdr and len(x) > hi:
+                            x[hi] = v
+                    if ok and not clash(s2, delims, delims[2]):
+                        out.append(('%s/%s-value-%s%s' % (key, trl, v, '+header' if both else ''), join_doc(s2, delims)))
     return out
 
 
